@@ -55,7 +55,7 @@ struct E7 : Engine {
 			ops.push(o); }
 		p["ops"] = ops;
 		J c = J::obj(); c["sid"] = (int)r.below(2); c["len"] = pick_len(); c["dl"] = 1 + (int)r.below(20); c["fill"] = (int)r.below(6);
-		c["post"] = (int)r.below(3); c["tick_after"] = r.below(3)==0 ? (int)r.below(25) : 0; c["random_states"] = thorough ? 256 : 64;
+		c["post"] = (int)r.below(4);   // 0 load, 1 gc+load, 2 load twice, 3 the application repeats the interrupted save (same value, same deadline) to completion and loads c["tick_after"] = r.below(3)==0 ? (int)r.below(25) : 0; c["random_states"] = thorough ? 256 : 64;
 		p["crash"] = c;
 		// a fifth of the plans: instead of the crashing save, a concurrent phase - savers, loaders, removers and gc as scheduled threads on the same two sessions
 		if(r.below(5) == 0){ p["crash"] = J(); J th = J::arr(); int nt = 2 + r.below(2);
@@ -121,6 +121,12 @@ struct E7 : Engine {
 		booster::shared_ptr<session_storage> st = f.get();
 		SidModel &m = c.model[sid];
 		if(post == 1) f.gc_job();
+		if(post == 3){   // after the restart the request is repeated: a completed save must be readable whatever the crash left in the file
+			c.cnt["crash_then_resave"]++;
+			try { st->save(sid,inflight.deadline,inflight.val); } catch(cppcms::cppcms_error const &e){ c.fail("save-failed",what + ": repeating the save after the crash threw " + e.what()); return; }
+			time_t dl = 0; std::string out; bool ok = st->load(sid,dl,out); bool want = inflight.deadline >= c.now();
+			if(ok != want || (ok && (out != inflight.val || (int64_t)dl != inflight.deadline))){ c.fail("live-session-lost",what + ": the save was repeated to completion after the crash, yet load returned " + (ok ? show(out) : std::string("nothing")) + " instead of " + show(inflight.val)); return; }
+			return; }
 		for(int round = 0; round < (post == 2 ? 2 : 1); round++){
 			time_t dl = 0; std::string out; bool ok = st->load(sid,dl,out);
 			if(ok){
@@ -223,7 +229,7 @@ struct E7 : Engine {
 			{ session_file_storage_factory f(DIR_,5,1,file_lock); try { f.get()->save(sid,nw.deadline,nw.val); } catch(cppcms::cppcms_error const &e){ c.fail("save-failed",std::string("crash save threw ") + e.what()); } }
 			std::vector<simk::FsEvent> evs(simk::fs_journal().begin()+j0,simk::fs_journal().end());
 			simk::FsImage fin = simk::fs_snapshot();
-			int post = (int)(((cr.geti("post")%3)+3)%3); bool fl = file_lock;
+			int post = (int)(((cr.geti("post")%4)+4)%4); bool fl = file_lock;
 			int64_t ta = std::max<int64_t>(0,std::min<int64_t>(cr.geti("tick_after"),100000)); if(ta) simk::advance_us(ta*1000000);
 			std::string P = path_of(sid);
 			if(res.ok){
